@@ -47,4 +47,17 @@ def fromAssignment (I : Inst) (a : Nat → Option Nat) (unassigned unfulfilled :
 def getQuality (q : Nat × List Nat) : Nat × Nat :=
   (q.1 * (W - INSTRUCTOR_SCORE) + q.2.sum, q.2.length + q.1)
 
+/-- `iter().sum::<u32>()`: the penalties are added in u32 (wrapping in release builds) before the
+    conversion to usize; each element is itself a u32 -/
+def sumU32 (l : List Nat) : Nat := l.foldl (fun acc x => (acc + x) % 2^32) 0
+
+/-- `combined_quality` transcribed term by term, with the u32 sum of the external penalties -/
+def combinedU32 (I : Inst) (score extInstr : Nat) (extPen : List Nat) : Nat × Nat :=
+  (numReal I * W - score + extInstr * (W - INSTRUCTOR_SCORE) + sumU32 extPen,
+   numReal I + extPen.length + extInstr)
+
+/-- `AssignmentQualityInfo::get_quality` with the u32 sum of the penalties -/
+def getQualityU32 (q : Nat × List Nat) : Nat × Nat :=
+  (q.1 * (W - INSTRUCTOR_SCORE) + sumU32 q.2, q.2.length + q.1)
+
 end QM
